@@ -86,6 +86,7 @@ class Ob:
         self.backend = backend
         self.id = d.get("id", "?")
         self.props = d.get("props", "").split(",")
+        self.also = [x for x in d.get("also", "").split(",") if x]
         self.tier = d.get("tier", "quick")
         self.kind = d.get("kind", "proof")  # proof | bounded | canary | lemma
         self.fn = d.get("fn", "")
@@ -100,6 +101,11 @@ class Ob:
 
     def in_tier(self, tier):
         return tier == "thorough" or self.tier == "quick"
+
+    def serves(self, prop, tier):
+        """primary obligations run in every tier; `also=` obligations (proved under another property's quick check)
+        are re-run for this property only in the thorough tier and listed as dependencies in the quick evidence"""
+        return prop in self.props or (tier == "thorough" and prop in self.also)
 
 
 def parse_tags(line):
@@ -148,10 +154,10 @@ def king_instances(ob, tier, seed):
         return allv
     n = int(ob.qsel)
     # fixed representatives (corner, edge, home squares, centre) + seed-rotated remainder
-    fixed = [(0, 4), (1, 60), (0, 0), (1, 63), (0, 27), (1, 36), (0, 7), (1, 56)]
+    fixed = [(0, 27), (1, 36), (0, 4), (1, 60), (0, 0), (1, 63), (1, 27), (0, 36), (0, 7), (1, 56)]
     chosen = []
     for c, s in fixed:
-        if len(chosen) < n:
+        if len(chosen) < max(1, n - 1):
             chosen.append((c, s))
     k = seed
     while len(chosen) < n:
